@@ -49,8 +49,8 @@ Proof. intros m L AM HC. exact (compile_affine_projection m L (declared_used m) 
 Theorem C01_projection_affine_nonvacuous : affine_model m0 /\ exists L, compile m0 = inr L.
 Proof. split; [exact m0_affine|exact m0_compiles]. Qed.
 
-(* ---- proved end to end on the arithmetic fragment with abs, min and max.  abs_model m: well-formed domains, every declared variable
-   used, declared bounds not NaN and integer ranges within i32, sides and objective total arithmetic with abs over declared
+(* ---- proved end to end on the arithmetic fragment with abs, min and max.  abs_model m: well-formed domains, a declared variable
+   that occurs nowhere (it is dropped by the compiler) has a non-empty range, declared bounds not NaN and integer ranges within i32, sides and objective total arithmetic with abs over declared
    names, and the trace condition compile_trace m = true: the objective and every constraint the main loop takes from
    its queue (source constraints and the rows the arms pushed back) is not an assertion, is not taken by the
    logic-constraint test and, once rewritten by flatten / simplify, has only arithmetic, abs, min and max nodes over names
@@ -66,7 +66,8 @@ Proof. intros m L BM HC. exact (compile_abs_projection_used m L BM HC). Qed.
 Theorem C01_abs_both_directions :
   forall (m : model) (L : linmodel), abs_model m -> compile m = inr L ->
     (forall sigma, sat_linear L sigma ->
-       sat_model m sigma /\ forall v, ev sigma (m_obj m) = Some v -> rel (req_of_dir (m_dir m)) (lin_objective L sigma) v) /\
+       exists sigma', agree_on (declared_used m) sigma sigma' /\ sat_model m sigma' /\
+         forall v, ev sigma' (m_obj m) = Some v -> rel (req_of_dir (m_dir m)) (lin_objective L sigma) v) /\
     (forall rho v, sat_model m rho -> ev rho (m_obj m) = Some v ->
        exists sigma, agree_on (map fst (m_domain m)) rho sigma /\ sat_linear L sigma /\ lin_objective L sigma = v).
 Proof. exact compile_abs_equiv. Qed.
@@ -81,6 +82,9 @@ Proof. split; [exact m1_abs_model|split; [exact m1_not_affine|exact m1_compiles]
 Theorem C01_projection_minmax_nonvacuous :
   abs_model m2 /\ exists L, compile m2 = inr L /\ (List.length (lm_vars L) > 6)%nat.
 Proof. split; [exact (abs_modelb_sound m2 m2_in_fragment)|exact m2_compiles]. Qed.
+(* ... and by a model with a declared variable that occurs nowhere *)
+Theorem C01_projection_unused_nonvacuous : abs_model m4.
+Proof. exact (abs_modelb_sound m4 m4_in_fragment). Qed.
 (* ... and by a model in which operands are pruned as dominated (max{x, -20, y - 30} keeps x alone) *)
 Theorem C01_projection_pruning_nonvacuous :
   abs_model m3 /\
@@ -105,7 +109,7 @@ Proof. exact prune_min. Qed.
    induction carries (auxiliaries fresh, queue and rows only grow, the context is finite, over declared names, related to
    the value as the requirement says, and every point of the old state extends to the new one with the exact value) *)
 Theorem C01_linearize_abs_spec :
-  forall n e r s c s', okexp e = true -> INV s -> incl (xvars e) (keys s) -> tot e ->
+  forall n e r s c s', okexp e = true -> INV s -> incl (xvars e) (ukeys s) -> tot e ->
     lin n e r s = inr (c, s') -> lin_spec e r s c s'.
 Proof. exact lin_ok. Qed.
 
